@@ -19,6 +19,9 @@ type HistStep struct {
 	Reuse    bool           `json:"reuse,omitempty"`     // pass the very tensor objects of the previous step again
 	FeedFrom map[string]string `json:"feed,omitempty"`   // input name <- output name of the previous step
 	Note     string         `json:"note,omitempty"`
+	// Rewrite: before the Run, the caller overwrites the CONTENTS of the tensor objects of the previous step
+	// (same objects, new values: element i becomes -old - i%3) and passes them again
+	Rewrite bool `json:"rewrite,omitempty"`
 }
 
 type stepReport struct {
@@ -83,6 +86,20 @@ func sameOuts(a, b gonnx.Tensors) (bool, string) {
 	return true, ""
 }
 
+// rewriteInPlace gives the tensor object new contents (float32 / float64 only).
+func rewriteInPlace(t tensor.Tensor) {
+	switch d := t.Data().(type) {
+	case []float32:
+		for i := range d {
+			d[i] = -d[i] - float32(i%3)
+		}
+	case []float64:
+		for i := range d {
+			d[i] = -d[i] - float64(i%3)
+		}
+	}
+}
+
 // historyCase runs a sequence of Runs on ONE model and compares every call with a freshly loaded
 // model, snapshotting caller tensors, weights and the protobuf around every call.
 func historyCase(stream string, load func() (*gonnx.Model, error), desc any, steps []HistStep) *Case {
@@ -104,6 +121,11 @@ func historyCase(stream string, load func() (*gonnx.Model, error), desc any, ste
 			if st.Reuse && prevIn != nil {
 				for k, v := range prevIn {
 					in[k] = v
+				}
+			}
+			if st.Rewrite {
+				for _, v := range in {
+					rewriteInPlace(v)
 				}
 			}
 			for _, nt := range st.Inputs {
@@ -172,7 +194,7 @@ func historyCase(stream string, load func() (*gonnx.Model, error), desc any, ste
 			// the same tensors once more: the previous result again, bit for bit (a fresh model in the same
 			// process cannot reveal state kept outside the Model)
 			rep.EqualRepeat = true
-			if st.Reuse && len(st.Inputs) == 0 && len(st.FeedFrom) == 0 && rerr == nil && prevOut != nil && prevOK {
+			if st.Reuse && !st.Rewrite && len(st.Inputs) == 0 && len(st.FeedFrom) == 0 && rerr == nil && prevOut != nil && prevOK {
 				if ok, d := sameOuts(out, prevOut); !ok {
 					rep.EqualRepeat = false
 					rep.Detail += " differs from the previous Run on the same inputs: " + d
@@ -288,7 +310,7 @@ func genC02(e *emitter, tier string) {
 	for _, hg := range weightRoutingGraphs() {
 		g := hg.g
 		loader := func() (*gonnx.Model, error) { return loadModel(g) }
-		steps := []HistStep{{Inputs: hg.ins}, {Reuse: true}, {Inputs: hg.ins}, {Inputs: hg.bad, Note: "failing call"}, {Inputs: hg.ins}}
+		steps := []HistStep{{Inputs: hg.ins}, {Reuse: true}, {Reuse: true, Rewrite: true, Note: "same tensor objects, new contents"}, {Inputs: hg.ins}, {Inputs: hg.bad, Note: "failing call"}, {Inputs: hg.ins}}
 		if hg.feed != nil {
 			steps = append(steps, HistStep{Reuse: true, FeedFrom: hg.feed, Note: "output fed back"})
 		}
@@ -302,7 +324,7 @@ func genC02(e *emitter, tier string) {
 	for i := 0; i < nd; i++ {
 		g, ins := genDAG(e, 8)
 		loader := func() (*gonnx.Model, error) { return loadModel(g) }
-		e.emit(historyCase("dag", loader, g, []HistStep{{Inputs: ins}, {Reuse: true}, {Inputs: ins}}))
+		e.emit(historyCase("dag", loader, g, []HistStep{{Inputs: ins}, {Reuse: true}, {Reuse: true, Rewrite: true}, {Inputs: ins}}))
 	}
 }
 
